@@ -119,3 +119,33 @@ func cutFunction(path string, src []byte, name, stub string) ([]byte, error) {
 	}
 	return nil, fmt.Errorf("nativecut: function %s not found in %s", name, path)
 }
+
+// constHashOut: a hash application whose input bytes are all constants is
+// evaluated with the real function (the uninterpreted symbol stands for that
+// function, so this is an instance of it); collision-freedom against the
+// symbolic applications of the path is still asserted by the caller. Keeps
+// identifiers of concretely built transactions/blocks concrete, so that maps
+// keyed by them do not fork. VERIF_NOCONSTHASH=1 disables it.
+func constHashOut(in *Interp, kind string, input []*Term, outBytes int) []*Term {
+	if noConstHash {
+		return nil
+	}
+	data := make([]byte, len(input))
+	for i, t := range input {
+		if !t.IsConst() {
+			return nil
+		}
+		data[i] = byte(t.Uint64())
+	}
+	d, ok := concreteDigest(kind, data, outBytes)
+	if !ok || len(d) < outBytes {
+		return nil
+	}
+	out := make([]*Term, outBytes)
+	for i := range out {
+		out[i] = in.ts.ConstU(8, uint64(d[i]))
+	}
+	return out
+}
+
+var noConstHash = os.Getenv("VERIF_NOCONSTHASH") != ""
